@@ -244,6 +244,9 @@ func runC10(c *Ctx) {
 	checkActorAndLabelOrder(c)
 	// the operations compiled are the operations staged, in that order (shared with C04)
 	checkAuthorSplit(c)
+	// the incrementally maintained snapshot a long-running process serves is the one of the merged entity (shared with C02)
+	checkCacheMergeFold(c, "R2.6")
+	checkCommentCombinedIdStable(c, "R13.8")
 }
 
 // isSameParam: v is the parameter p, or a load of the local cell p was spilled into (captured by a closure).
@@ -524,6 +527,40 @@ func checkApplyTable(c *Ctx) {
 			}
 		}
 		c.Check(okUpd, "R10.4", "EditCommentOperation.Apply:updates-target-comment", w.FnPos(ec), "the comment with the target's id gets the new text", "the edited text is not written into the comment identified by the target id")
+		// message and files of the comment are replaced together: same conditions on both stores (a whole-comment assignment replaces both)
+		{
+			condKey := func(b *ssa.BasicBlock) string {
+				var ks []string
+				for _, cc := range controlConds(b, nil) {
+					ks = append(ks, fmt.Sprintf("%s/%d", w.InstrPos(cc.If), cc.Edge))
+				}
+				sort.Strings(ks)
+				return strings.Join(ks, ",")
+			}
+			keys := map[string]string{}
+			whole := false
+			for _, b := range ec.Blocks {
+				for _, ins := range b.Instrs {
+					st, isSt := ins.(*ssa.Store)
+					if !isSt {
+						continue
+					}
+					if ia, isIA := st.Addr.(*ssa.IndexAddr); isIA && hasField(ia.X, "Comments") && typeShortName(st.Val.Type()) == "entities/bug.Comment" {
+						whole = true
+					}
+					if fa, isFA := st.Addr.(*ssa.FieldAddr); isFA && (fieldName(fa) == "Message" || fieldName(fa) == "Files") {
+						if ia, isIA := fa.X.(*ssa.IndexAddr); isIA && hasField(ia.X, "Comments") {
+							keys[fieldName(fa)] = condKey(b)
+						}
+					}
+				}
+			}
+			mk, hasM := keys["Message"]
+			fk, hasF := keys["Files"]
+			c.Sites++
+			c.Check(whole || (hasM && hasF && mk == fk), "R10.4", "EditCommentOperation.Apply:message-and-files-replaced-together", w.FnPos(ec), "Message and Files of the comment are replaced under the same conditions",
+				"the comment's files are not replaced under the same conditions as its message (message: ["+mk+"], files: ["+fk+"]): after an edit the comment list and the timeline disagree about the files of the latest edit")
+		}
 	}
 	// no-op and set-metadata
 	dp := w.Pkg("entity/dag")
